@@ -21,7 +21,7 @@ PROP = 'C10'
 RUN_CLASSES = ('norecycle', 'recycle', 'lru', 'threads', 'long', 'threads_wide')
 SHRINK_BUDGET = 700
 
-C10_KINDS = ['tvar', 'tagged', 'list', 'set', 'vtuple', 'tuple', 'dict', 'tlist', 'tset', 'tseq', 'tvtuple', 'ttuple', 'tdict', 'tmap',
+C10_KINDS = ['odict', 'tvar', 'tagged', 'list', 'set', 'vtuple', 'tuple', 'dict', 'tlist', 'tset', 'tseq', 'tvtuple', 'ttuple', 'tdict', 'tmap',
              'opt', 'union', 'lit', 'ann', 'tl', 'dl', 'cls', 'enum', 'gen', 'vol', 'range', 'frozenset']
 C10_SCALARS = ['int', 'float', 'str', 'bool', 'none', 'Fraction', 'Decimal', 'date', 'datetime', 'time',
                'PurePath', 'Pattern', 'bytes', 'complex', 'any', 'int', 'str', 'float', 'any', 'any']
@@ -405,7 +405,13 @@ def gen_plan(seed: int, cls: str) -> dict:
                 else:
                     params.append(tg.gen_type(ro, sym, [k for k in kinds if k not in ('tl', 'dl', 'gen')], C10_SCALARS,
                                               depth=1, max_depth=2, top=False))
-            if ro.random() < 0.4:
+            tv_union = False
+            if ro.random() < 0.3:
+                # a union of two bare type variables as a parameter; the reordered spelling follows, and both are
+                # completed with the same arguments
+                params[0] = ['runion', ['tv', 'T'], ['tv', 'U']]
+                tv_union = True
+            elif ro.random() < 0.4:
                 # partial binding: some parameters stay (or contain) type variables; the result can be subscripted again
                 for j in range(ntv):
                     if ro.random() < 0.6:
@@ -434,14 +440,30 @@ def gen_plan(seed: int, cls: str) -> dict:
                 if fr2:
                     partials[rname] = fr2
                 ops.append({'op': 'subscript', 'name': rname, 't': ast2, 'g': g, 'data': probe(ast2)})
-            if any(p_[0] == 'runion' for p_ in params) and ro.random() < 0.5:
+            if any(p_[0] == 'runion' for p_ in params) and (tv_union or ro.random() < 0.5):
                 # the same parameters spelled in the other order (equal to typing, different to pane)
                 params2 = [['runion'] + list(reversed(p_[1:])) if p_[0] == 'runion' else p_ for p_ in params]
                 ast2 = ['gen', g] + params2
+                first = rname
                 rname = f'r{nroot}'
                 nroot += 1
                 roots[rname] = ast2
                 ops.append({'op': 'subscript', 'name': rname, 't': ast2, 'g': g, 'data': probe(ast2)})
+                if tv_union:
+                    fr2 = []
+                    for p_ in params2:
+                        free_typevars(p_, fr2)
+                    partials[rname] = fr2
+                    args = ro.choice([[['s', 'float'], ['s', 'int']], [['s', 'float'], ['s', 'int']], [['s', 'int'], ['s', 'float']],
+                                      [['s', 'bool'], ['s', 'int']], [['s', 'complex'], ['s', 'float']]])
+                    for base in (first, rname):
+                        if base in partials and len(partials[base]) == len(args):
+                            a3 = ['gen2', base] + args
+                            r3 = f'r{nroot}'
+                            nroot += 1
+                            roots[r3] = resolve(a3, roots)
+                            ops.append({'op': 'subscript', 'name': r3, 't': a3, 'g': g,
+                                        'data': tg.enc(tg.sample_value(roots[r3], sym, ro, valid_p=1.0))})
         elif name == 'drop':
             if not roots:
                 continue
@@ -1654,6 +1676,21 @@ def execute_threads(plan, want_trace=False) -> dict:
 
     from .kernel import PristineServer
     pristine_srv = PristineServer(pristine_eval) if knobs['target'] != 'keycache' else None
+    # every real lock that lives in a pane module (module globals, class attributes) is simulated for the run: a real
+    # lock contended under the baton scheduler would block the one thread that is allowed to run
+    import _thread
+    import threading as _threading
+    _real_lock_types = (_thread.LockType, type(_threading.RLock()))
+    for _m in s.mods.values():
+        for _name, _val in list(vars(_m).items()):
+            if isinstance(_val, _real_lock_types):
+                swapped.append((_m, _name, _val))
+                setattr(_m, _name, sched.make_lock())
+            elif isinstance(_val, type) and getattr(_val, '__module__', '') == _m.__name__:
+                for _an, _av in list(vars(_val).items()):
+                    if isinstance(_av, _real_lock_types):
+                        swapped.append((_val, _an, _av))
+                        setattr(_val, _an, sched.make_lock())
     world = tg.World()
     alloc = SimAlloc(st.rng('alloc'), knobs['p_recycle'], counters=counters)
     results = []      # per thread: list of fingerprints
